@@ -59,6 +59,7 @@ func c12LocalConst(f *goast.File, fd *ast.FuncDecl, name string) (string, error)
 
 // c12Switch prints every case of the first switch statement of fd as "cond => body".
 func c12Switch(f *goast.File, fd *ast.FuncDecl) ([]string, error) {
+	c12Normalize(fd)
 	var sw *ast.SwitchStmt
 	ast.Inspect(fd.Body, func(n ast.Node) bool {
 		if s, ok := n.(*ast.SwitchStmt); ok && sw == nil {
@@ -94,8 +95,103 @@ func c12Switch(f *goast.File, fd *ast.FuncDecl) ([]string, error) {
 	return out, nil
 }
 
+// c12Normalize makes the extracted text insensitive to edits that cannot matter for the properties:
+// statements that only log or count (log.X(...), <metric>.Inc()/Add()/Observe()/Set()) are removed, and every
+// identifier declared inside the function (receiver, parameters, results, locals) is renamed to _v<n> in
+// order of first appearance.  Idempotent; mutates the AST of fd.
+func c12Normalize(fd *ast.FuncDecl) {
+	if fd.Body == nil {
+		return
+	}
+	isNoise := func(s ast.Stmt) bool {
+		es, ok := s.(*ast.ExprStmt)
+		if !ok {
+			return false
+		}
+		c, ok := es.X.(*ast.CallExpr)
+		if !ok {
+			return false
+		}
+		se, ok := c.Fun.(*ast.SelectorExpr)
+		if !ok {
+			return false
+		}
+		root := se.X
+		for {
+			switch x := root.(type) {
+			case *ast.SelectorExpr:
+				root = x.X
+				continue
+			case *ast.CallExpr:
+				root = x.Fun
+				continue
+			}
+			break
+		}
+		if id, ok := root.(*ast.Ident); ok && id.Name == "log" {
+			return true
+		}
+		switch se.Sel.Name {
+		case "Inc", "Dec", "Observe":
+			return true
+		}
+		return false
+	}
+	var strip func(list []ast.Stmt) []ast.Stmt
+	strip = func(list []ast.Stmt) []ast.Stmt {
+		var out []ast.Stmt
+		for _, s := range list {
+			if !isNoise(s) {
+				out = append(out, s)
+			}
+		}
+		return out
+	}
+	ast.Inspect(fd.Body, func(n ast.Node) bool {
+		switch x := n.(type) {
+		case *ast.BlockStmt:
+			x.List = strip(x.List)
+		case *ast.CaseClause:
+			x.Body = strip(x.Body)
+		case *ast.CommClause:
+			x.Body = strip(x.Body)
+		}
+		return true
+	})
+	// pass 1: which objects are declared inside fd (decided before any identifier is touched), in order of first appearance
+	names := map[*ast.Object]string{}
+	ast.Inspect(fd, func(n ast.Node) bool {
+		id, ok := n.(*ast.Ident)
+		if !ok || id.Obj == nil || id.Name == "_" || id.Obj.Kind != ast.Var {
+			return true
+		}
+		if _, seen := names[id.Obj]; seen {
+			return true
+		}
+		if strings.HasPrefix(id.Name, "_v") {
+			return true // already normalised
+		}
+		pos := id.Obj.Pos()
+		if pos < fd.Pos() || pos > fd.End() {
+			return true // package-level object
+		}
+		names[id.Obj] = fmt.Sprintf("_v%d", len(names))
+		return true
+	})
+	// pass 2: rename
+	ast.Inspect(fd, func(n ast.Node) bool {
+		if id, ok := n.(*ast.Ident); ok && id.Obj != nil {
+			if nm, ok := names[id.Obj]; ok {
+				id.Name = nm
+			}
+		}
+		return true
+	})
+}
+
 // c12Body prints the top-level statements of fd, one normalised source string each.
 func c12Body(f *goast.File, fd *ast.FuncDecl) []string {
+	c12Normalize(fd)
 	var out []string
 	for _, s := range fd.Body.List {
 		if ds, ok := s.(*ast.DeclStmt); ok {
@@ -184,6 +280,14 @@ func genC12(repo string) (string, error) {
 		}
 		o.strList(nm, c12Body(b.f, fd), b.f.Path+": statements of ("+b.recv+")."+b.name)
 	}
+
+	// the guard that keeps non-positive counts away from FitRegion: RuleManager.adjustRule (every rule a
+	// RuleManager serves — SetRule, Batch, bundles, loadRules — went through it)
+	guards, err := c13AdjustChecks(rm)
+	if err != nil {
+		return "", err
+	}
+	o.strList("adjust_rule_guards", guards, rm.Path+": conditions of adjustRule that reject a rule, source order")
 
 	// var legacyExclusiveLabels = []string{...}
 	var legacy []string
